@@ -239,6 +239,91 @@ theorem unlimited_rules_pass (cfg : Cfg) (ops : List Op) (h : Hyp cfg ops) :
 
 example : results cfgU State.init ops1 = [.pass, .pass, .pass, .pass, .pass] := by decide
 
+/-! ### the limiters map: generations and maintenance on the wall clock -/
+
+/-- **maintenance is safe**: when one clock drives events and maintenance (`ClockOK`, `δ` = how
+    stale a generation stamp can be = the longest gap between maintenance iterations) and the
+    effective expiration covers the bucket window plus that staleness, the deletions of
+    `limitersMap.maintenance` (with `getOrAdd` refreshing the generation on every access) satisfy
+    the expiry hypothesis of every `…_partial` theorem above -/
+theorem maintenance_is_safe (cfg : Cfg) (exp δ g0 : Int) (ops : List MOp) (hc : cfgOK cfg = true)
+    (hclk : ClockOK cfg δ g0 ((cfg.count : Int) * cfg.interval) ops)
+    (hexp : (cfg.count : Int) * cfg.interval + δ ≤ exp * 1000) :
+    Hyp cfg (expand cfg exp true ⟨g0, []⟩ ops) :=
+  hyp_of_clock cfg exp δ g0 ops hc hclk hexp
+
+/-- **per key and bucket passes ≤ limit across maintenance ticks**: idle keys lose their limiter,
+    busy keys keep it, re-created limiters start empty only when nothing of the key's history is
+    retained - the passed amount per (rule, key, bucket) never exceeds the rule's limit -/
+theorem passed_le_limit_across_ticks (cfg : Cfg) (exp δ g0 : Int) (ops : List MOp) (hc : cfgOK cfg = true)
+    (hclk : ClockOK cfg δ g0 ((cfg.count : Int) * cfg.interval) ops)
+    (hexp : (cfg.count : Int) * cfg.interval + δ ≤ exp * 1000) (hsz : sizesOK (mevs ops) = true)
+    (i : Nat) (r : Rule) (key : Bytes) (id : Int)
+    (hr : cfg.rules[i]? = some r) (h0 : 0 ≤ r.limit) (hd : r.distr.isEnabled = false) :
+    passed cfg (limKey i key) id
+      (observe (expand cfg exp true ⟨g0, []⟩ ops) (results cfg State.init (expand cfg exp true ⟨g0, []⟩ ops)))
+      ≤ r.limit :=
+  passed_le_limit_partial cfg _ (hyp_of_clock cfg exp δ g0 ops hc hclk hexp)
+    (by rw [evs_expand]; exact hsz) i r key id hr h0 hd
+
+example : results cfgT State.init (expand cfgT 14 true ⟨100, []⟩ opsBusy)
+    = [.pass, .discard, .discard, .discard, .pass, .discard] := by decide
+example : passed cfgT (limKey 0 ka) 11 (observe (expand cfgT 14 true ⟨100, []⟩ opsBusy)
+    (results cfgT State.init (expand cfgT 14 true ⟨100, []⟩ opsBusy))) ≤ 1 :=
+  passed_le_limit_across_ticks cfgT 14 4000 100 opsBusy (by decide) clockBusy (by decide) (by decide)
+    0 _ ka 11 rfl (by decide) rfl
+
+/-- **a key accessed at least once per expiration is never deleted** (`BusyKey`: at every
+    maintenance iteration `t`, `t - g < exp` for the generation `g` of the key's last access):
+    no maintenance iteration produces an `expire` of its limiter, so its buckets persist -/
+theorem busy_key_never_expires (cfg : Cfg) (exp g0 : Int) (k : Bytes) (ops : List MOp)
+    (hb : BusyKey cfg exp k g0 none ops) : Op.expire k ∉ expand cfg exp true ⟨g0, []⟩ ops :=
+  busy_never_expired cfg exp k ops ⟨g0, []⟩ none (fun _ h => by simp at h) hb
+
+example : BusyKey cfgT 14 (limKey 0 ka) 100 none opsBusy := by
+  simp only [opsBusy, evT, BusyKey]
+  decide
+/-- an idle key does expire: its limiter is dropped 14 µs after its last generation -/
+example : expand cfgT 14 true ⟨100, []⟩ [evT 100000, .tick 104, .tick 113, .tick 114]
+    = [.ev ⟨ka, 100000, 100000, 1, []⟩, .expire (limKey 0 ka)] := by decide
+
+/-- the same statement for a `getOrAdd` that does not store the generation on access
+    (`refresh = false`: a limiter keeps the generation of its creation) -/
+def PassedLeLimitWithoutRefresh : Prop :=
+  ∀ (cfg : Cfg) (exp δ g0 : Int) (ops : List MOp), cfgOK cfg = true →
+    ClockOK cfg δ g0 ((cfg.count : Int) * cfg.interval) ops →
+    (cfg.count : Int) * cfg.interval + δ ≤ exp * 1000 → sizesOK (mevs ops) = true →
+    ∀ (i : Nat) (r : Rule) (key : Bytes) (id : Int), cfg.rules[i]? = some r → 0 ≤ r.limit →
+      r.distr.isEnabled = false →
+      passed cfg (limKey i key) id
+        (observe (expand cfg exp false ⟨g0, []⟩ ops) (results cfg State.init (expand cfg exp false ⟨g0, []⟩ ops)))
+        ≤ r.limit
+
+/-- the refresh is necessary: without it a key in continuous use loses its limiter one expiration
+    after its creation and its current, exhausted bucket gets a second budget (`opsBusy`: the
+    limiter is dropped at 116 µs, the event at 116.5 µs passes in bucket 11 again) -/
+theorem gen_not_refreshed_counterexample : ¬ PassedLeLimitWithoutRefresh := by
+  intro h
+  have := h cfgT 14 4000 100 opsBusy (by decide) clockBusy (by decide) (by decide) 0 _ ka 11 rfl
+    (by decide) rfl
+  revert this
+  decide
+
+example : results cfgT State.init (expand cfgT 14 false ⟨100, []⟩ opsBusy)
+    = [.pass, .discard, .discard, .discard, .pass, .expired, .pass] := by decide
+
+/-- what the fix provides: the effective expiration `Start` hands to the map (configured value
+    raised to `bucket_interval × buckets_count`, in µs) covers the bucket window up to the µs
+    truncation - but not the staleness `δ` of a stamp (known finding C16-expiry-stamp-granularity) -/
+theorem effective_expiration_covers_window (expNs interval : Int) (count : Nat) (h1 : 0 ≤ expNs)
+    (h2 : 0 ≤ interval) : interval * (count : Int) ≤ effExp expNs interval count * 1000 + 999 := by
+  unfold effExp
+  have h3 : 0 ≤ interval * (count : Int) := Int.mul_nonneg h2 (by omega)
+  rw [Int.tdiv_eq_ediv_of_nonneg (by omega)]
+  omega
+
+example : effExp 1000000 2000000000 1 = 2000000 := by decide
+
 /-! ### the oracle of the correspondence check -/
 
 /-- the executable oracle `./check` applies to the implementation's answers accepts the model's
